@@ -2,6 +2,7 @@
 mod dump;
 mod enc;
 mod gen_enc;
+mod gen_dec;
 mod gen_c06;
 mod gen_c07;
 mod gen_c08;
@@ -39,6 +40,8 @@ fn main() {
         Some("gen") => match args.get(2).map(|s| s.as_str()) {
             Some("c12") => gen_c12::gen(&mut out, seed, thorough),
             Some(w @ ("c01" | "c02" | "c13" | "c16" | "c18" | "c19" | "c11")) => gen_enc::gen(&mut out, w, seed, thorough),
+            Some("c05d") => gen_dec::gen_c05(&mut out, seed, thorough),
+            Some("c15") => gen_dec::gen_c15(&mut out, seed, thorough),
             Some("c08") => gen_c08::gen(&mut out, seed, thorough),
             Some("c07") => gen_c07::gen(&mut out, seed, thorough),
             Some("c06") => gen_c06::gen(&mut out, seed, thorough),
